@@ -76,7 +76,10 @@ def table(C, key, names, idx):
     cols = {}
     for n in range(C["N"]):
         if C["kind"][n] != "strat":
-            cols[names[n]] = [to_float(v) for v in C[key][n]]
+            col = [to_float(v) for v in C[key][n]]
+            if key in ("costl", "costs") and all(math.isnan(v) for v in col):
+                continue  # no such column: the cost is simply not supplied
+            cols[names[n]] = col
     # shared tickers: same name in several sub-strategies -> one column
     return pd.DataFrame(cols, index=idx)
 
@@ -478,10 +481,12 @@ def _same(a, b):
         if isinstance(x, list):
             return len(x) == len(y) and all(eq(p, q) for p, q in zip(x, y))
         if isinstance(x, float) and isinstance(y, float):
-            return x == y or (math.isnan(x) and math.isnan(y))
+            # equal up to floating-point re-association (a second update adds the
+            # same terms in another order): a few ulps, never a lattice step
+            return x == y or (math.isnan(x) and math.isnan(y)) or math.isclose(x, y, rel_tol=1e-11, abs_tol=1e-10)
         return x == y
 
-    keys = [k for k in a if k not in ("chk_prev", "prev")]
+    keys = [k for k in a if k not in ("chk_prev", "prev", "chk_now")]
     return all(k in b and eq(a[k], b[k]) for k in keys)
 
 
